@@ -167,12 +167,10 @@ contract(
     lets={'data0': 'data'},
     loops={0: {'subviews': {'data': 'data0'}, 'inv': ['len(data) <= len(data0)'], 'decreases': 'len(data)'}},
     raises=[{'exc': 'Notify', 'cover': False}, {'exc': 'IndexError', 'cover': False}, {'exc': 'ValueError', 'cover': False}],
-    ensures=['result is self'],
+    ensures=['result is self', 'len(data) == 0'],  # the whole attribute block is walked
     notes=['termination and recursion depth: the walk is a loop (depth 1) whose variant len(data) strictly decreases; iterations <= len(data)/3'],
     canaries=[('while data:', 'while len(data) > 1:')],
 )
-# the cover for the canary: parse must consume everything
-REG.contracts[(AC, 'AttributeCollection.parse')].final = ['implies(exc is None, len(data) == 0)'] if False else None
 
 
 # ------------------------------------------------------------------------------------------------ _parse_payload: treat-as-withdraw (C08)
